@@ -308,9 +308,23 @@ pub fn run_inner(
     budget: u64,
 ) -> Obs {
     let items = os(argv);
+    // the same vector reaches bpaf through each of the `From` conversions `Args` offers: as
+    // OsStrings, and - when every item is text - as `&[String]` or `&[&str]`, chosen by content
+    let texts: Option<Vec<String>> = argv
+        .iter()
+        .map(|a| String::from_utf8(a.clone()).ok())
+        .collect();
+    let strs: Option<Vec<&str>> = texts.as_ref().map(|t| t.iter().map(|s| s.as_str()).collect());
+    let osrefs: Vec<&std::ffi::OsStr> = items.iter().map(|o| o.as_os_str()).collect();
+    let flavour = argv.iter().map(|a| a.len()).sum::<usize>() % 4;
     arm(cb, budget);
     let r = catch_unwind(AssertUnwindSafe(|| {
-        let mut args = Args::from(&items[..]);
+        let mut args = match (flavour, &texts, &strs) {
+            (1, Some(t), _) => Args::from(&t[..]),
+            (2, _, Some(s)) => Args::from(&s[..]),
+            (3, _, _) => Args::from(&osrefs[..]),
+            _ => Args::from(&items[..]),
+        };
         if let Some(n) = name {
             args = args.set_name(n);
         }
